@@ -12,11 +12,12 @@ Every call inside the body of `save` is classified, in evaluation order
   not a local dict literal, x[..] = ..           -> SBuild  (lxml validates names and values: may raise)
   Element(.., nsmap=..)                          -> SNs     (root element with the collected namespaces)
   json.dumps(..)                                -> SEncode (may raise)
+  x.encode(..)                                  -> SBytes  (text to bytes; may raise)
   tree.write(stream, ..)  [tree = ElementTree]  -> SWrite  (serialises while writing)
   stream.write(..)                              -> SWrite
   stream.flush()                                -> SFlush
   self.uri.close_stream()                       -> SClose
-  len, .get / .clear / .encode, .update on a local dict literal -> nothing
+  len, .get / .clear, .update on a local dict literal -> nothing
 
 Anything else (an unknown call, try/with/while, branches of an `if` with
 different effects, a write on something that is not the opened stream) is
@@ -33,7 +34,7 @@ OUT = os.path.join(VERIF, 'coq', 'Gen', 'SaveOrder.v')
 BUILD_METHODS = {'_go_across', 'to_dict', 'register_eobject_epackage'}
 # calls that neither touch the target nor walk the model
 BENIGN_FUNCS = {'len'}
-BENIGN_METHODS = {'get', 'clear', 'encode'}
+BENIGN_METHODS = {'get', 'clear'}
 TREE_FUNCS = {'QName', 'Element', 'ElementTree', 'SubElement'}     # lxml constructors: may raise
 TREE_METHODS = {'append', 'update'}
 
@@ -95,6 +96,8 @@ class Effects:
             if recv is not None and recv == self.stream_var:
                 return ['SWrite']
             self.refuse(c, 'write on something that is not the stream opened by open_out_stream')
+        if isinstance(f, ast.Attribute) and f.attr == 'encode':
+            return ['SBytes']
         if isinstance(f, ast.Attribute) and f.attr == 'flush':
             if dotted(f.value) is not None and dotted(f.value) == self.stream_var:
                 return ['SFlush']
